@@ -98,12 +98,12 @@ EXPORT errno_t _strspn_s_chk(const char *dest, rsize_t dmax, const char *src,
         CHK_DEST_OVR("strspn_s", destbos)
     }
 
+    if (unlikely(slen > RSIZE_MAX_STR)) {
+        invoke_safe_str_constraint_handler("strspn_s: slen exceeds max",
+                                           (void *)src, ESLEMAX);
+        return RCNEGATE(ESLEMAX);
+    }
     if (srcbos == BOS_UNKNOWN) {
-        if (unlikely(slen > RSIZE_MAX_STR)) {
-            invoke_safe_str_constraint_handler("strspn_s: slen exceeds dmax",
-                                               (void *)src, ESLEMAX);
-            return RCNEGATE(ESLEMAX);
-        }
         BND_CHK_PTR_BOUNDS(src, slen);
     } else {
         if (unlikely(slen > srcbos)) {
